@@ -1,5 +1,5 @@
 /- C47 — property theorems (see docs/C47.md).  Model: C47/Model.lean, specification: C47/Spec.lean. -/
-import TornadoModel.C47.Inv3
+import TornadoModel.C47.Inv4
 namespace TornadoModel.C47
 open TornadoModel.C06 (Str joinWith dget dset)
 open Spec
@@ -204,6 +204,144 @@ example : cgiName (str "Content-Type") ∉ keys ([] : List (Str × Str)) ∧
   have : str "Content-Type" = n := by simpa [hasName] using h1
   rw [← this] at h2
   exact absurd h2 (by decide)
+
+/-! ## the final environ against the specification the oracle applies -/
+
+/-- **environ_eq_expected**: for a request with target `path[?query]` and Host `name[:port]` the environ handed to the
+    application is built (`wsgi.input` = the body), it is a dictionary (variable names pairwise distinct), it
+    CONTAINS every entry of `Spec.expected s` with exactly that value — method, SCRIPT_NAME, percent-decoded path,
+    query string, peer address, SERVER_NAME = name, SERVER_PORT = port number (scheme default when absent or
+    empty), protocol, scheme, CONTENT_TYPE / CONTENT_LENGTH when the request has them, and `HTTP_*` for every other
+    header whose variable name is unambiguous — and it contains NO variable outside `Spec.allowedKey s`.
+    These are the two predicates the oracle applies to the environ the real application captured. -/
+theorem environ_eq_expected (s : SReq) (hpath : cQ ∉ s.path)
+    (hport : ∀ p, s.port = some p → p.all isDigit = true)
+    (hname : s.port = none → splitHostPort s.name = (s.name, [])) :
+    ∃ vars, environ (assemble s) = .ok { vars := vars, input := s.body } ∧
+      (keys vars).Nodup ∧
+      (∀ kv ∈ Spec.expected s, dget kv.1 vars = some kv.2) ∧
+      (∀ k ∈ keys vars, Spec.allowedKey s k = true) := by
+  obtain ⟨vars, hadd, henv⟩ := environ_fields s hpath hport hname
+  rw [expected_no_headers] at hadd
+  have hnd9 : (keys (base9 s)).Nodup := by rw [keys_base9]; exact baseKeys_nodup
+  have hctb : dget (str "CONTENT_TYPE") (base9 s) = none :=
+    dget_none_of_notin_keys _ _ (by rw [keys_base9]; decide)
+  have hclb : dget (str "CONTENT_LENGTH") (base9 s) = none :=
+    dget_none_of_notin_keys _ _ (by rw [keys_base9]; decide)
+  have hct := environ_content_headers _ _ _ hadd
+  have hcl := addHeaders_content_length _ _ _ hadd
+  rw [hctb] at hct
+  rw [hclb] at hcl
+  refine ⟨vars, henv, addHeaders_keys_nodup _ _ _ hadd hnd9, ?_, ?_⟩
+  · intro kv hkv
+    rw [expected_split] at hkv
+    simp only [List.mem_append] at hkv
+    rcases hkv with ((hkv | hkv) | hkv) | hkv
+    · have hk : kv.1 ∈ baseKeys := by
+        rw [← keys_base9 s]; exact List.mem_map.mpr ⟨kv, hkv, rfl⟩
+      obtain ⟨h1, h2, h3⟩ := baseKeys_plain kv.1 hk
+      rw [addHeaders_dget_plain _ _ _ hadd kv.1 h1 h2 h3]
+      exact dget_of_mem_nodup kv _ hnd9 hkv
+    · by_cases hh : hasName (str "Content-Type") s.headers = true
+      · rw [if_pos hh, List.mem_singleton] at hkv
+        subst hkv
+        rw [hct, if_pos hh]
+      · rw [if_neg hh] at hkv; simp at hkv
+    · by_cases hh : hasName (str "Content-Length") s.headers = true
+      · rw [if_pos hh, List.mem_singleton] at hkv
+        subst hkv
+        rw [hcl, if_pos hh]
+      · rw [if_neg hh] at hkv; simp at hkv
+    · obtain ⟨n, hn, rfl⟩ := List.mem_map.mp hkv
+      obtain ⟨hn1, hn2⟩ := List.mem_filter.mp hn
+      simp only [Bool.and_eq_true, Bool.not_eq_true'] at hn2
+      exact environ_http_vars _ _ _ hadd n
+        ((hasName_iff n s.headers).mpr (List.mem_eraseDups.mp hn1)) hn2.1 hn2.2
+  · intro k hk
+    unfold Spec.allowedKey
+    rw [Bool.or_eq_true, List.any_eq_true, List.any_eq_true]
+    rcases environ_http_names _ _ _ hadd k hk with h | h | h | ⟨n, h1, h2, e⟩
+    · left
+      obtain ⟨kv, hkv, e⟩ := List.mem_map.mp h
+      refine ⟨kv, ?_, by simpa using e⟩
+      rw [expected_split]
+      simp only [List.mem_append]
+      exact Or.inl (Or.inl (Or.inl hkv))
+    · left
+      subst h
+      have hh : hasName (str "Content-Type") s.headers = true := by
+        by_cases hno : hasName (str "Content-Type") s.headers = true
+        · exact hno
+        · rw [if_neg hno] at hct
+          exact absurd hct (dget_ne_none_of_mem_keys _ _ hk)
+      refine ⟨(str "CONTENT_TYPE", joinWith [cComma] (valuesOf (str "Content-Type") s.headers)), ?_, by simp⟩
+      rw [expected_split]
+      simp only [List.mem_append]
+      exact Or.inl (Or.inl (Or.inr (by rw [if_pos hh]; simp)))
+    · left
+      subst h
+      have hh : hasName (str "Content-Length") s.headers = true := by
+        by_cases hno : hasName (str "Content-Length") s.headers = true
+        · exact hno
+        · rw [if_neg hno] at hcl
+          exact absurd hcl (dget_ne_none_of_mem_keys _ _ hk)
+      refine ⟨(str "CONTENT_LENGTH", joinWith [cComma] (valuesOf (str "Content-Length") s.headers)), ?_, by simp⟩
+      rw [expected_split]
+      simp only [List.mem_append]
+      exact Or.inl (Or.inr (by rw [if_pos hh]; simp))
+    · right
+      refine ⟨n, (hasName_iff n s.headers).mp h1, ?_⟩
+      rw [h2, e]; simp
+
+def exReq : SReq :=
+  { method := str "GET", path := str "/a%20b", query := some (str "x=1"), name := str "[::1]",
+    port := some (str "0080"), https := false, remoteIp := str "1.2.3.4", version := str "HTTP/1.1",
+    headers := [(str "Content-Type", str "t"), (str "X-Foo", str "1"), (str "Request-Method", str "evil")], body := [1] }
+
+example : cQ ∉ exReq.path ∧ (∀ p, exReq.port = some p → p.all isDigit = true) ∧
+      (exReq.port = none → splitHostPort exReq.name = (exReq.name, [])) := by
+  refine ⟨by decide, ?_, by simp [exReq]⟩
+  intro p hp
+  have : p = str "0080" := by simpa [exReq] using hp.symm
+  subst this
+  decide
+example : (match environ (assemble exReq) with
+    | .ok e => dget (str "REQUEST_METHOD") e.vars == some (str "GET") && dget (str "HTTP_REQUEST_METHOD") e.vars == some (str "evil")
+        && dget (str "SERVER_NAME") e.vars == some (str "[::1]") && dget (str "SERVER_PORT") e.vars == some (str "80")
+    | .error _ => false) = true := by decide
+
+/-- **environ_final_fields** (the per-variable reading of `environ_eq_expected`): in the environ the application
+    receives, REQUEST_METHOD is the method, PATH_INFO the percent-decoded path, QUERY_STRING the query (empty when
+    there is none), SERVER_NAME the host name without the port and SERVER_PORT the port number — no request header
+    can overwrite any of them (a header named `Request-Method` becomes `HTTP_REQUEST_METHOD`). -/
+theorem environ_final_fields (s : SReq) (hpath : cQ ∉ s.path)
+    (hport : ∀ p, s.port = some p → p.all isDigit = true)
+    (hname : s.port = none → splitHostPort s.name = (s.name, [])) :
+    ∃ vars, environ (assemble s) = .ok { vars := vars, input := s.body } ∧
+      dget (str "REQUEST_METHOD") vars = some s.method ∧
+      dget (str "PATH_INFO") vars = some (TornadoModel.C31.unquote s.path) ∧
+      dget (str "QUERY_STRING") vars = some (s.query.getD []) ∧
+      dget (str "SERVER_NAME") vars = some s.name ∧
+      dget (str "SERVER_PORT") vars = some (portOf s.https s.port) ∧
+      dget (str "SERVER_PROTOCOL") vars = some s.version ∧
+      dget (str "REMOTE_ADDR") vars = some s.remoteIp := by
+  obtain ⟨vars, henv, _, hexp, _⟩ := environ_eq_expected s hpath hport hname
+  have hm : ∀ kv ∈ base9 s, dget kv.1 vars = some kv.2 := by
+    intro kv hkv
+    apply hexp
+    rw [expected_split]
+    simp only [List.mem_append]
+    exact Or.inl (Or.inl (Or.inl hkv))
+  have m0 : (str "REQUEST_METHOD", s.method) ∈ base9 s := .head _
+  have m2 : (str "PATH_INFO", TornadoModel.C31.unquote s.path) ∈ base9 s := .tail _ (.tail _ (.head _))
+  have m3 : (str "QUERY_STRING", s.query.getD []) ∈ base9 s := .tail _ (.tail _ (.tail _ (.head _)))
+  have m4 : (str "REMOTE_ADDR", s.remoteIp) ∈ base9 s := .tail _ (.tail _ (.tail _ (.tail _ (.head _))))
+  have m5 : (str "SERVER_NAME", s.name) ∈ base9 s := .tail _ (.tail _ (.tail _ (.tail _ (.tail _ (.head _)))))
+  have m6 : (str "SERVER_PORT", portOf s.https s.port) ∈ base9 s :=
+    .tail _ (.tail _ (.tail _ (.tail _ (.tail _ (.tail _ (.head _))))))
+  have m7 : (str "SERVER_PROTOCOL", s.version) ∈ base9 s :=
+    .tail _ (.tail _ (.tail _ (.tail _ (.tail _ (.tail _ (.tail _ (.head _)))))))
+  exact ⟨vars, henv, hm _ m0, hm _ m2, hm _ m3, hm _ m5, hm _ m6, hm _ m7, hm _ m4⟩
 
 /-! ## the response -/
 
